@@ -50,9 +50,16 @@ const T_NESTED: TypeSpec = TypeSpec { name: "List<u8>", nvals: 2, join: false };
 const T_Z: TypeSpec = TypeSpec { name: "Val<Z>", nvals: 1, join: false };
 const T_TR: TypeSpec = TypeSpec { name: "Val<Tr>", nvals: 2, join: false };
 const T_OPT: TypeSpec = TypeSpec { name: "Option<u32>", nvals: 2, join: false };
+// element types whose equality is not reflexive (NaN) and not bitwise (0.0 == -0.0)
+const T_F64: TypeSpec = TypeSpec { name: "f64", nvals: 3, join: false };
+const T_F32: TypeSpec = TypeSpec { name: "f32", nvals: 3, join: false };
+const T_NESTED_F: TypeSpec = TypeSpec { name: "List<f64>", nvals: 3, join: false };
 
 /// what mk(0) and mk(1) are, per element type (for the written-out cases)
-const ELEMENTS: [(&str, &str); 7] = [
+const ELEMENTS: [(&str, &str); 10] = [
+    ("f64", "mk(0) = f64::NAN, mk(1) = 0.0, mk(2) = -0.0"),
+    ("f32", "mk(0) = f32::NAN, mk(1) = 0.0, mk(2) = -0.0"),
+    ("List<f64>", "mk(0) = a fresh List::from(vec![f64::NAN]), mk(1) = a fresh [0.0], mk(2) = a fresh [-0.0]"),
     ("u8", "mk(0) = 0u8, mk(1) = 1u8"),
     ("u64", "mk(0) = 0u64, mk(1) = 1u64"),
     ("String", "mk(0) = \"\", mk(1) = \"ab\""),
@@ -78,14 +85,16 @@ struct Bounds {
     depth_seed_full: usize,
     /// depth of the search from the empty state for `Option<u32>`
     depth_opt: usize,
+    /// depth of the search from the empty state for f64, f32, List<f64> (three element values)
+    depth_float: usize,
     swap_all_pairs: bool,
     chunk: usize,
 }
 
 fn bounds(tier: Tier) -> Bounds {
     match tier {
-        Tier::Quick => Bounds { depth_empty: 4, depth_seed: 2, depth_seed_full: 3, depth_opt: 3, swap_all_pairs: true, chunk: 12 },
-        Tier::Thorough => Bounds { depth_empty: 6, depth_seed: 3, depth_seed_full: 4, depth_opt: 5, swap_all_pairs: true, chunk: 12 },
+        Tier::Quick => Bounds { depth_empty: 4, depth_seed: 2, depth_seed_full: 3, depth_opt: 3, depth_float: 3, swap_all_pairs: true, chunk: 12 },
+        Tier::Thorough => Bounds { depth_empty: 6, depth_seed: 3, depth_seed_full: 4, depth_opt: 5, depth_float: 4, swap_all_pairs: true, chunk: 12 },
     }
 }
 
@@ -96,6 +105,7 @@ fn searches(tier: Tier) -> Vec<Search> {
     let b = bounds(tier);
     let main = vec![T_U8, T_U64, T_STR, T_NESTED, T_Z, T_TR];
     let mut seed_types = main.clone();
+    seed_types.push(T_F64);
     if tier == Tier::Thorough {
         seed_types.push(T_OPT);
     }
@@ -103,6 +113,7 @@ fn searches(tier: Tier) -> Vec<Search> {
     let mut v = vec![
         Search { root: empty, depth: b.depth_empty, types: main },
         Search { root: empty, depth: b.depth_opt, types: vec![T_OPT] },
+        Search { root: empty, depth: b.depth_float, types: vec![T_F64, T_F32, T_NESTED_F] },
     ];
     for len in SEED_LENS {
         for shape in [Shape::One, Shape::Aliased, Shape::Distinct] {
@@ -204,7 +215,7 @@ fn execute<E: Elem>(scripts: &Scripts<E>, root: &Root, hist: &[Step], step: Step
         host::ledger_reset();
     }
     real::buffers_reset();
-    let mut m = Model::from_root(root, E::DISTINCT);
+    let mut m = Model::from_root(root, E::NVALS);
     let mut r: Real<E> = Real::from_root(root, scripts);
     let mut fail: Option<Box<Fail>> = None;
     for (k, s) in hist.iter().chain(std::iter::once(&step)).enumerate() {
@@ -267,7 +278,7 @@ fn case_json(ty: &TypeSpec, root: &Root, hist: &[Step], step: Step, fail_at: Opt
     let mut c = json!({
         "elem": ty.name,
         "mk": ELEMENTS.iter().find(|e| e.0 == ty.name).map(|e| e.1),
-        "root": root.text(),
+        "root": root.text(ty.nvals),
         "history": hist.iter().map(|s| s.text()).collect::<Vec<_>>().join("; "),
         "op": step.text(),
     });
@@ -329,7 +340,7 @@ fn run_typed<E: Elem>(u: &UnitSpec, p: &Plan, cx: &mut Cx) {
         let node = u.first + off;
         let hist = tree.history(node);
         let depth = hist.len();
-        let m = model::replay_model(root, &hist, E::DISTINCT);
+        let m = model::replay_model(root, &hist, E::NVALS);
         let key = m.key();
         let state_hash = vcore::util::mix(vcore::util::fnv_str(E::NAME), vcore::util::fnv(&key));
         let steps = model::alphabet(&m, depth, &al);
@@ -396,7 +407,7 @@ fn run_typed<E: Elem>(u: &UnitSpec, p: &Plan, cx: &mut Cx) {
         cx.set("states", state_hash);
         if off == 0 {
             if let Some(s) = steps.iter().rev().find(|s| matches!(s.op, Op::Concat { .. })) {
-                cx.sample(json!({"elem": E::NAME, "root": root.text(),
+                cx.sample(json!({"elem": E::NAME, "root": root.text(E::NVALS),
                     "history": hist.iter().map(|s| s.text()).collect::<Vec<_>>().join("; "),
                     "then_every_enabled_operation_eg": s.text(), "enabled_operations": steps.len()}));
             }
@@ -421,6 +432,9 @@ fn dispatch(u: &UnitSpec, p: &Plan, cx: &mut Cx) {
         "Val<Z>" => run_typed::<real::EZ>(u, p, cx),
         "Val<Tr>" => run_typed::<real::ETr>(u, p, cx),
         "Option<u32>" => run_typed::<real::EOpt>(u, p, cx),
+        "f64" => run_typed::<real::EF64>(u, p, cx),
+        "f32" => run_typed::<real::EF32>(u, p, cx),
+        "List<f64>" => run_typed::<real::ENestedF>(u, p, cx),
         _ => unreachable!(),
     }
 }
@@ -453,7 +467,7 @@ impl Check for C15 {
             return json!({"elem": u.ty.name, "error": "case index out of range"});
         }
         let hist = tree.history(u.first + off);
-        let m = model::replay_model(root, &hist, u.ty.nvals > 1);
+        let m = model::replay_model(root, &hist, u.ty.nvals);
         let steps = model::alphabet(&m, hist.len(), &alpha(&u.ty, p.swap_all_pairs));
         match steps.get(oi) {
             Some(s) => case_json(&u.ty, root, &hist, *s, Some(hist.len()), Some(&m)),
@@ -540,7 +554,7 @@ impl Check for C15 {
                     .iter()
                     .map(|ti| json!({"canonical_states": p.trees[*ti].nodes.len(), "expanded": p.trees[*ti].inner}))
                     .collect();
-                per_search.push(json!({"root": s.root.text(), "depth": s.depth,
+                per_search.push(json!({"root": s.root.text(2), "depth": s.depth,
                     "types": s.types.iter().map(|t| t.name).collect::<Vec<_>>(), "trees": t}));
             }
         }
@@ -558,6 +572,7 @@ impl Check for C15 {
                 "indices": "{0, 1, len-1, len, len+1, MAX}",
                 "depth_from_empty_state": b.depth_empty,
                 "depth_from_empty_state_option_u32": b.depth_opt,
+                "depth_from_empty_state_f64_f32_list_f64": b.depth_float,
                 "depth_from_seed_states": b.depth_seed,
                 "depth_from_one_handle_seeds_of_length_4_8_16": b.depth_seed_full,
                 "seed_lengths": SEED_LENS,
@@ -592,7 +607,7 @@ fn main() {
                 let root = &p.searches[u.search].root;
                 for node in u.first..u.first + u.n {
                     let hist = tree.history(node);
-                    let m = model::replay_model(root, &hist, u.ty.nvals > 1);
+                    let m = model::replay_model(root, &hist, u.ty.nvals);
                     trans += model::alphabet(&m, hist.len(), &alpha(&u.ty, p.swap_all_pairs)).len() as u64;
                 }
             }
